@@ -1359,6 +1359,9 @@ func (f *Frugal) isValidType(typ *Type) bool {
 
 func (f *Frugal) validateServices(includes map[string]*Frugal) error {
 	for _, service := range f.Services {
+		if err := f.validateServiceExtends(service, includes); err != nil {
+			return err
+		}
 		if err := f.validateServiceTypes(service, includes); err != nil {
 			return err
 		}
@@ -1367,6 +1370,29 @@ func (f *Frugal) validateServices(includes map[string]*Frugal) error {
 		}
 	}
 	return nil
+}
+
+// validateServiceExtends ensures an extended service is declared, in this file
+// or in the named include.
+func (f *Frugal) validateServiceExtends(service *Service, includes map[string]*Frugal) error {
+	if service.Extends == "" {
+		return nil
+	}
+	containing := f
+	if include := service.ExtendsInclude(); include != "" {
+		parsed, ok := includes[include]
+		if !ok {
+			return fmt.Errorf("Invalid service %s extended by %s: include %s not found",
+				service.Extends, service.Name, include)
+		}
+		containing = parsed
+	}
+	for _, s := range containing.Services {
+		if s.Name == service.ExtendsService() {
+			return nil
+		}
+	}
+	return fmt.Errorf("Invalid service %s extended by %s", service.Extends, service.Name)
 }
 
 func (f *Frugal) validateServiceTypes(service *Service, includes map[string]*Frugal) error {
